@@ -702,6 +702,7 @@ func TestC16_Live(t *testing.T) {
 	twins(t)
 	c := ev.New("C16", "live", "exploration")
 	t.Cleanup(c.Flush)
+	t.Cleanup(func() { drainExcluded(c) })
 	c.Rule("streams of 1-60 keyspace commands (TTL excluded: time dependent) with PING m<i> order markers and a final QUIT, as RESP+telnet, RESP after OUTPUT json, native, mixed RESP/telnet/native, or one HTTP GET/POST/WebSocket request after 0-6 preparation commands; sent over TCP_NODELAY to in-process server B cut at 1 point, at up to 24 points (a third next to command boundaries) or byte-at-a-time (<=400 bytes); after a segment ending on a command boundary the client waits for exactly the replies owed, after one ending inside a command it pauses 0/0.2/2 ms. The canonical replies (length prefixes and elapsed removed) must equal those of one uncut write to twin A prepared identically (FLUSHDB + same preparation), their number must equal the number of commands, nothing may follow, every PING marker must be answered at its position, and the server must close after QUIT / the HTTP reply. Non-trivial: at least one segment ends strictly inside a command; distinct by (kind, number of cuts, pause, command names hit by cuts).")
 	maxCmds := ev.Pick(60, 120)
 	ev.Rapid("live", ev.Pick(260, 2500))
@@ -755,6 +756,7 @@ func TestC16_LivePipeline(t *testing.T) {
 	twins(t)
 	c := ev.New("C16", "live-pipeline", "exploration")
 	t.Cleanup(c.Flush)
+	t.Cleanup(func() { drainExcluded(c) })
 	nCmds := ev.Pick(2000, 5000)
 	c.Rule(fmt.Sprintf("one connection carrying a pipeline of %d keyspace commands (RESP, or mixed with telnet and native) plus order markers and QUIT, written uncut to twin A and in 2-40 random segments (or fixed 1460/4096/65535/65536-byte segments) to server B without waiting for replies in between except at command boundaries; same oracle as live. Non-trivial: a segment ends inside a command; distinct by (kind, segmentation, size).", nCmds))
 	ev.Rapid("live-pipeline", ev.Pick(6, 40))
